@@ -345,7 +345,6 @@ def verify_path(contract, cfg, c, prop="", replay_hook=None):
         c.in_spec += 1
         try:
             S.assume(contract.requires(a))
-            rz = contract.raises(a)
         finally:
             c.in_spec -= 1
         input_storages = _input_storages(args, kwargs)
@@ -362,6 +361,13 @@ def verify_path(contract, cfg, c, prop="", replay_hook=None):
                 raise Unsupported("engine gap: %s: %s\n%s" % (type(e).__name__, e, "".join(traceback.format_tb(e.__traceback__)[-3:])))
             out.kind = "raise"
             out.exc = e
+        # raise conditions are evaluated after the run so that they may refer to ghost values
+        # recorded by callee stubs (e.g. the region returned by get_region)
+        c.in_spec += 1
+        try:
+            rz = contract.raises(a)
+        finally:
+            c.in_spec -= 1
         if out.kind == "raise":
             matching = [cond for (T, cond) in rz if isinstance(out.exc, T)]
             nm = "%s:raises.allowed[%s]" % (label, type(out.exc).__name__)
